@@ -19,6 +19,10 @@ open(f"{dst}/confirm.log", "w").write(confirm)
 checks = os.environ.get("CHECKS", prop).split()
 REPO = os.environ.get("REPO", "/repo"); CHECK = os.environ.get("CHECK", "/verif/check")  # an isolated copy (tools/mutscan_setup.sh) while /repo is in use
 assert subprocess.run(f"git -C {REPO} status --porcelain", shell=True, capture_output=True, text=True).stdout.strip() == ""
+# the checks rewrite evidence/<id>.json on every run: what they write while a seeded change is applied is
+# not evidence about the unchanged tree, so the files are put back afterwards
+EVID = os.path.dirname(CHECK) + "/evidence"; keep = EVID + ".keep"
+shutil.rmtree(keep, ignore_errors=True); shutil.copytree(EVID, keep)
 subprocess.run(f"git -C {REPO} apply {dst}/patch.diff", shell=True, check=True)
 res = {}
 try:
@@ -29,6 +33,7 @@ try:
         print(pid, c, "CAUGHT" if res[c]["caught"] else "missed", (lines[-2][:160] if len(lines) > 1 else ""))
 finally:
     subprocess.run(f"git -C {REPO} checkout -- .", shell=True)
+    shutil.rmtree(EVID, ignore_errors=True); shutil.move(keep, EVID)
 meta = {"property": prop, "breaks": prop, "source": "sub-agent given only the property text and a scratch worktree",
         "needs_to_manifest": needs,
         "confirmed": {"how": "tools/seed_confirm.sh in the agent's scratch worktree: full `cargo test -p chitchat` with the change, demo without the change, demo with the change", "log": "confirm.log"},
